@@ -68,12 +68,12 @@ def cases(rng, tier, shard, nshards):
     total = META['quick_cases'] if tier == 'quick' else META['thorough_cases']
     count = shard_count(total, shard, nshards)
     # long curves (thousands of points) in every tier: size-dependent fast paths, budgets and buffers only show there
-    for _ in range(1 if tier == 'quick' else 3):
+    for _ in range(2 if tier == 'quick' else 4):
         u_ = rng.random()
         if u_ < 0.3:
             # saw-tooth between two levels: every split peels one or two points off an end, the refinement tree is a chain
             # about n levels deep
-            n = int(rng.integers(2800, 4200))
+            n = gen.block_size(rng, int(rng.integers(2800, 4200)))
             x = np.arange(n, dtype=float)
             lo_, hi_ = float(rng.integers(1, 5)), float(rng.integers(6, 20))
             pts = np.ascontiguousarray(np.column_stack((x, np.where(np.arange(n) % 2 == 0, hi_, lo_))))
@@ -81,7 +81,7 @@ def cases(rng, tier, shard, nshards):
         elif u_ < 0.65:
             pts, fam = gen.long_spiky(rng), 'long-spiky'
         else:
-            n = int(rng.integers(4200, 9000))
+            n = gen.block_size(rng, int(rng.integers(4200, 9000)))
             x = np.cumsum(rng.integers(1, 4, n)).astype(float)
             pts = np.ascontiguousarray(np.column_stack((x, np.round(rng.random(n) * 100.0, 2) + 1.0)))
             fam = 'long-noise'
